@@ -158,6 +158,13 @@ def run(ctx):
                 for ms in (2**31 - 1, 2**31, -2**31, -2**31 - 1, 2**51 + 1, 2**53 + 1, 2**63 - 1 if False else 86399999999999):
                     vals.append(("dur", ms * 1000))
                 vals += [("dur", us) for us in (1, 499, 500, 501, 1500, 2500, -500, -1500, 999, -1)]
+                # every whole number of days the type can hold (i32: -24..24), whole hours, and days +- one millisecond
+                day = 86400000000
+                kmax = 24 if base == "timedelta_i32" else 40
+                vals += [("dur", k * day) for k in range(-kmax, kmax + 1)] + [("dur", k * day + e) for k in (1, -1, 7, 24) for e in (1000, -1000)]
+                vals += [("dur", h * 3600000000) for h in (1, 12, 23, 25, -1, -12)]
+                if base == "timedelta_i64":
+                    vals += [("dur", k * day) for k in (365, 36500, 999999998, 999999999, -999999999)]
                 # exact half-millisecond ties at many magnitudes, both signs: where a float detour rounds the wrong way
                 top = 2**31 if base == "timedelta_i32" else 2**53
                 for _ in range(150 if tier == "quick" else 3000):
